@@ -118,6 +118,12 @@ def rule_defaults(ctx, rid='RD'):
             continue
         ctx.functions.add(q)
         now = defaults_of(fi)
+        if fi.name.startswith('_') and not fi.name.startswith('__'):
+            # a private helper whose parameters were renamed (same positions): read its defaults under the names the table was frozen with
+            from .rules import renamed_params
+            for c, w in renamed_params(fi).items():
+                if c in now and w not in now:
+                    now[w] = now[c]
         for p_, want in sorted(frozen.items()):
             got = now.get(p_)
             if got is None:
